@@ -169,6 +169,7 @@ def pMOp (live : List Ref) : P MOp := do
   | "set_item" => do let i ← pInt; let x ← pRat; pure (.setItem i x)
   | "meta_set" => do let k ← pNat; let v ← pOV; pure (.metaSet k v)
   | "meta_append" => do let k ← pNat; let x ← tok; pure (.metaAppend k x)
+  | "truncate" => do let n ← pNat; pure (.truncate n)
   | "set_values_ref" => do
       let i ← pNat
       match live[i]? with | some r => pure (.setValuesRef r) | none => failure
@@ -287,6 +288,49 @@ def runCmd (mode : Mode) (h : Heap) (live : List Ref) (toks : List String) :
       | .error e => some (h, live, showErr e)
       | .ok h' => some (h', live, "ok")
     | _, _ => none
+  | "en" :: rest =>
+    let p : P (Except Err (Heap × Ref)) := do
+      let ap ← pList pNat; let d ← pList pNat; let db ← pList pRat; let dp ← pList pRat
+      pure (epwNew h ap d db dp)
+    match p.run rest with
+    | some (.ok (h', r), []) => some (h', live ++ [r], s!"ok {live.length} " ++ shareStrComp h' live r)
+    | some (.error e, []) => some (h, live, showErr e)
+    | _ => none
+  | ["ec", i, t] =>
+    match i.toNat? >>= (live[·]?), bool? t with
+    | some e, some t =>
+      match epwConvert h e t with
+      | .ok h' => some (h', live, "ok")
+      | .error er => some (h, live, showErr er)
+    | _, _ => none
+  | ["ef", i] =>
+    match i.toNat? >>= (live[·]?) with
+    | some e =>
+      match epwToFileString h e with
+      | .ok (true, h') => some (h', live, "ok")
+      | .ok (false, h') => some (h', live, "err:value")
+      | .error er => some (h, live, showErr er)
+    | none => none
+  | "ew" :: i :: rest =>
+    match i.toNat? >>= (live[·]?), (pList pNat).run rest with
+    | some e, some (hoys, []) =>
+      match epwToWea h e hoys with
+      | .ok (true, h') => some (h', live, "ok")
+      | .ok (false, h') => some (h', live, "err:index")
+      | .error er => some (h, live, showErr er)
+    | _, _ => none
+  | "es" :: i :: rest =>
+    match i.toNat? >>= (live[·]?) with
+    | none => none
+    | some e =>
+      let p : P (List Nat × List Nat × List Rat) := do
+        let ap ← pList pNat; let d ← pList pNat; let v ← pList pRat; pure (ap, d, v)
+      match p.run rest with
+      | some ((ap, d, v), []) =>
+        match epwSky h e ap d v with
+        | .ok (h', r) => some (h', live ++ [r], s!"ok {live.length} " ++ shareStr h' live r)
+        | .error er => some (h, live, showErr er)
+      | _ => none
   | "lm" :: i :: rest =>
     match i.toNat? >>= (live[·]?) with
     | none => none
